@@ -20,9 +20,9 @@ func init() {
 		Level: "exploration",
 		Cases: func(t string) int {
 			if t == "thorough" {
-				return 16000
+				return 32000
 			}
-			return 1200
+			return 3000
 		},
 		Batch: func(t string) int { return 50 },
 		Floors: []string{"sorted_outputs_checked", "target_GenericBuffer", "target_Buffer", "target_RowBuffer", "target_SortingWriter", "desc_nullable_key", "nulls_first_key", "two_column_keys", "resort_histories", "reset_reuse_histories",
